@@ -122,7 +122,13 @@ func runGc(progs []*Prog) ([]outcome, error) {
 			var src string
 			if k.Path == "" {
 				// the main package waits for the marker package (sorted before every package of the program)
-				src = strings.Replace(k.render(mod, pn, "Main"), "import (\n", "import (\n\t_ \""+mod+"/0mark\"\n", 1)
+				src = k.render(mod, pn, "Main")
+				mark := "import _ \"" + mod + "/0mark\"\n"
+				if i := strings.Index(src, "\nimport "); i >= 0 {
+					src = src[:i+1] + mark + src[i+1:]
+				} else if i := strings.Index(src, "\n"); i >= 0 {
+					src = src[:i+1] + mark + src[i+1:]
+				}
 			} else {
 				src = k.render(mod, "", "")
 			}
